@@ -13,8 +13,10 @@ import (
 )
 
 func init() {
-	core.Register("C01", "model_checking", func(c *core.Ctx) error { return runTL1(c, "C01") })
-	core.Register("C02", "model_checking", func(c *core.Ctx) error { return runTL1(c, "C02") })
+	for _, id := range []string{"C01", "C02", "C03", "C04"} {
+		id := id
+		core.Register(id, "model_checking", func(c *core.Ctx) error { return runTL1(c, id) })
+	}
 }
 
 func tls(name string) string {
@@ -65,15 +67,17 @@ func (b *Built) script(tn string, bytesVariant bool, steps ...map[string]any) (*
 }
 
 type valPayload struct {
-	Kind  string `json:"kind"`
-	Tn    string `json:"tn"`
-	K     int    `json:"k"`
-	TL1OK bool   `json:"tl1ok"`
-	TL1   []int  `json:"tl1"`
-	TL1B  []int  `json:"tl1b"`
-	Boxed bool   `json:"boxed"`
-	B     []int  `json:"b"`
-	Dec   struct {
+	Kind   string `json:"kind"`
+	Tn     string `json:"tn"`
+	K      int    `json:"k"`
+	TL1OK  bool   `json:"tl1ok"`
+	TL1    []int  `json:"tl1"`
+	TL1B   []int  `json:"tl1b"`
+	HasTL2 bool   `json:"hastl2"`
+	TL2    []int  `json:"tl2"`
+	Boxed  bool   `json:"boxed"`
+	B      []int  `json:"b"`
+	Dec    struct {
 		OK       bool  `json:"ok"`
 		Unk      bool  `json:"unk"`
 		Consumed int   `json:"consumed"`
@@ -148,46 +152,28 @@ func runCorpusTL1(c *core.Ctx, prop string, cp Corpus, k, kmut int) error {
 		}
 		if p.Kind == "val" {
 			nVal++
-			if prop != "C01" && p.K > 0 {
+			if !wantVal(prop, p.K) {
 				return
 			}
 			if !p.TL1OK {
 				firstErr = fmt.Errorf("spec produced an unencodable valid value for %s", p.Tn)
 				return
 			}
-			for _, boxed := range []bool{false, true} {
-				in, op := p.TL1, "read1"
-				if boxed {
-					in, op = p.TL1B, "read1b"
-				}
-				r, err := b.script(p.Tn, false, map[string]any{"op": op, "in": in})
-				if err != nil {
-					firstErr = err
-					return
-				}
-				s := r.Steps[0]
-				bad := ""
-				switch {
-				case s.Panic != "":
-					bad = "panic: " + s.Panic
-				case s.Err != "":
-					bad = "valid encoding rejected: " + s.Err
-				case s.Consumed != len(in):
-					bad = fmt.Sprintf("consumed %d of %d bytes", s.Consumed, len(in))
-				case s.Dump.TL1Err != "" || s.Dump.TL1BErr != "":
-					bad = "write error on a valid value: " + s.Dump.TL1Err + s.Dump.TL1BErr
-				case !eqInts(s.Dump.TL1, p.TL1) || !eqInts(s.Dump.TL1B, p.TL1B):
-					bad = fmt.Sprintf("re-encoding differs: got %s / %s", hexs(s.Dump.TL1), hexs(s.Dump.TL1B))
-				}
-				c.Add("evaluations", 1)
-				if bad != "" {
-					c.Violate(fmt.Sprintf("tl1-roundtrip/%s/%s/%s/%s", cp.Name, p.Tn, op, hexs(in)),
-						fmt.Sprintf("type %s, %s of %s: %s", p.Tn, op, hexs(in), bad),
+			fs, err := replayVal(c, b, &p)
+			if err != nil {
+				firstErr = err
+				return
+			}
+			for _, f := range fs {
+				if classOf[prop][f.class] {
+					c.Violate(fmt.Sprintf("%s/%s/%s/%s", f.class, cp.Name, p.Tn, f.key), fmt.Sprintf("type %s: %s", p.Tn, f.what),
 						map[string]any{"corpus": cp, "payload": p})
+				} else {
+					c.Add("other_property_mismatches_seen", 1)
 				}
 			}
 			if nVal%211 == 1 {
-				c.Sample(map[string]any{"corpus": cp.Name, "type": p.Tn, "tl1": hexs(p.TL1), "tl1_boxed": hexs(p.TL1B)})
+				c.Sample(map[string]any{"corpus": cp.Name, "type": p.Tn, "tl1": hexs(p.TL1), "tl1_boxed": hexs(p.TL1B), "tl2": hexs(p.TL2)})
 			}
 			return
 		}
@@ -279,4 +265,91 @@ func tlaBool(b bool) string {
 		return "TRUE"
 	}
 	return "FALSE"
+}
+
+// which finding classes decide which property
+var classOf = map[string]map[string]bool{
+	"C01": {"tl1": true},
+	"C02": {"tl1": true},
+	"C03": {"tl2": true},
+	"C04": {"conv": true},
+}
+
+func wantVal(prop string, k int) bool {
+	if prop == "C02" {
+		return k == 0
+	}
+	return true
+}
+
+type finding struct{ class, key, what string }
+
+// replayVal drives the generated code with the spec's encodings of one value
+// and compares every observable with the spec.
+func replayVal(c *core.Ctx, b *Built, p *valPayload) ([]finding, error) {
+	var fs []finding
+	add := func(class, key, what string) { fs = append(fs, finding{class, key, what}) }
+	var jsonFromTL1 string
+	for _, boxed := range []bool{false, true} {
+		in, op := p.TL1, "read1"
+		if boxed {
+			in, op = p.TL1B, "read1b"
+		}
+		r, err := b.script(p.Tn, false, map[string]any{"op": op, "in": in})
+		if err != nil {
+			return nil, err
+		}
+		s := r.Steps[0]
+		c.Add("evaluations", 1)
+		key := op + "/" + hexs(in)
+		switch {
+		case s.Panic != "":
+			add("tl1", key, "panic: "+s.Panic)
+			continue
+		case s.Err != "":
+			add("tl1", key, fmt.Sprintf("%s of valid encoding %s rejected: %s", op, hexs(in), s.Err))
+			continue
+		case s.Consumed != len(in):
+			add("tl1", key, fmt.Sprintf("%s of %s consumed %d of %d bytes", op, hexs(in), s.Consumed, len(in)))
+		case s.Dump.TL1Err != "" || s.Dump.TL1BErr != "":
+			add("tl1", key, "write error on a valid value: "+s.Dump.TL1Err+s.Dump.TL1BErr)
+		case !eqInts(s.Dump.TL1, p.TL1) || !eqInts(s.Dump.TL1B, p.TL1B):
+			add("tl1", key, fmt.Sprintf("%s of %s re-encodes to %s / %s", op, hexs(in), hexs(s.Dump.TL1), hexs(s.Dump.TL1B)))
+		}
+		if !boxed {
+			jsonFromTL1 = s.Dump.JSON
+			if p.HasTL2 && s.Dump.HasTL2 && !eqInts(s.Dump.TL2, p.TL2) {
+				add("tl2", "write2/"+hexs(in), fmt.Sprintf("value read from TL1 %s is written in TL2 as %s, spec %s", hexs(in), hexs(s.Dump.TL2), hexs(p.TL2)))
+			}
+		}
+	}
+	if p.HasTL2 {
+		r, err := b.script(p.Tn, false, map[string]any{"op": "read2", "in": p.TL2})
+		if err != nil {
+			return nil, err
+		}
+		s := r.Steps[0]
+		c.Add("evaluations", 1)
+		key := "read2/" + hexs(p.TL2)
+		switch {
+		case s.Panic != "":
+			add("tl2", key, "panic: "+s.Panic)
+		case s.Err != "":
+			add("tl2", key, fmt.Sprintf("ReadTL2 of valid encoding %s rejected: %s", hexs(p.TL2), s.Err))
+		default:
+			if s.Consumed != len(p.TL2) {
+				add("tl2", key, fmt.Sprintf("ReadTL2 of %s consumed %d of %d bytes", hexs(p.TL2), s.Consumed, len(p.TL2)))
+			}
+			if !eqInts(s.Dump.TL2, p.TL2) {
+				add("tl2", key, fmt.Sprintf("ReadTL2 of %s re-encodes to %s", hexs(p.TL2), hexs(s.Dump.TL2)))
+			}
+			if s.Dump.TL1Err != "" || !eqInts(s.Dump.TL1, p.TL1) {
+				add("conv", "tl1-tl2-tl1/"+hexs(p.TL1), fmt.Sprintf("TL1 %s -> TL2 %s -> TL1 gives %s %s", hexs(p.TL1), hexs(p.TL2), hexs(s.Dump.TL1), s.Dump.TL1Err))
+			}
+			if s.Dump.JSON != jsonFromTL1 {
+				add("conv", "json-differs/"+hexs(p.TL1), fmt.Sprintf("JSON after TL1 decode %s, after TL2 decode %s", jsonFromTL1, s.Dump.JSON))
+			}
+		}
+	}
+	return fs, nil
 }
